@@ -242,11 +242,15 @@ def rng(tag: str) -> random.Random:
 
 
 def load_findings() -> dict:
+    """known_findings.json (committed; never written at run time)."""
     path = os.path.join(VERIF, "known_findings.json")
-    if not os.path.exists(path):
-        return {"findings": [], "fixed": []}
-    with open(path) as f:
-        return json.load(f)
+    res = {"findings": [], "fixed": []}
+    if os.path.exists(path):
+        with open(path) as f:
+            d = json.load(f)
+        res["findings"] += d.get("findings", [])
+        res["fixed"] += d.get("fixed", [])
+    return res
 
 
 def write_replay(prop: str, name: str, payload: dict) -> str:
